@@ -1,58 +1,10 @@
-(* Tie by translation, pkg/frame and pkg/streamwriter: markers, offsets, the 24/48-bit helpers,
-   the signed flag, the signature clock and window, as regenerated from /repo on every run. *)
+(* Tie by translation, pkg/frame and pkg/streamwriter: markers, flags and offsets, and marshalTo of
+   both frame versions, as regenerated from /repo on every run. *)
 From Coq Require Import ZArith NArith List String Ascii Lia Bool Btauto.
 From GM Require Import SrcPrelude.
-From GM Require Import SrcFrame SrcStreamwriter Bytes Result Frame Reader Writer.
+From GM Require Import SrcFrame SrcStreamwriter Bytes Result Frame SrcFrameLemmas.
 Import ListNotations.
 Local Open Scope N_scope.
-
-Lemma wrap8_u8 x : wrap 8 x = u8 x.
-Proof. reflexivity. Qed.
-
-(* ---------------- v2_frame.go: 24- and 48-bit little-endian helpers, IsSigned ---------------- *)
-Lemma wrap_small w x : x < 2 ^ w -> wrap w x = x.
-Proof. intros H. unfold wrap. apply N.mod_small. exact H. Qed.
-
-Lemma shl_lt b k n : b < 256 -> 8 + k <= n -> N.shiftl b k < 2 ^ n.
-Proof.
-  intros Hb Hk. rewrite N.shiftl_mul_pow2.
-  apply N.lt_le_trans with (2 ^ 8 * 2 ^ k).
-  - apply N.mul_lt_mono_pos_r; [apply N.neq_0_lt_0; apply N.pow_nonzero; discriminate|exact Hb].
-  - rewrite <- N.pow_add_r. apply N.pow_le_mono_r; [discriminate|exact Hk].
-Qed.
-
-Ltac lor_trees := apply N.bits_inj; intros n; rewrite !N.lor_spec; btauto.
-
-Theorem src_uint24_decode a b c : a < 256 -> b < 256 -> c < 256 ->
-  src_frame_uint24Decode [a; b; c] = le_dec [a; b; c].
-Proof.
-  intros Ha Hb Hc. unfold src_frame_uint24Decode. cbn [nth le_dec].
-  rewrite !wrap_small by (apply shl_lt; [assumption|discriminate]).
-  rewrite N.shiftl_0_l, N.lor_0_r. rewrite !N.shiftl_lor, !N.shiftl_shiftl.
-  change (8 + 8) with 16. lor_trees.
-Qed.
-
-Theorem src_uint48_decode a b c d e f : a < 256 -> b < 256 -> c < 256 -> d < 256 -> e < 256 -> f < 256 ->
-  src_frame_uint48Decode [a; b; c; d; e; f] = le_dec [a; b; c; d; e; f].
-Proof.
-  intros Ha Hb Hc Hd He Hf. unfold src_frame_uint48Decode. cbn [nth le_dec].
-  rewrite !wrap_small by (apply shl_lt; [assumption|discriminate]).
-  rewrite N.shiftl_0_l, N.lor_0_r. rewrite !N.shiftl_lor, !N.shiftl_shiftl.
-  change (8 + 8) with 16. change (8 + 16) with 24. change (8 + 24) with 32. change (8 + 32) with 40.
-  lor_trees.
-Qed.
-
-Theorem src_uint24_encode x0 x1 x2 rest v :
-  src_frame_uint24Encode (x0 :: x1 :: x2 :: rest) v = (le_enc 3 v ++ rest)%list.
-Proof. unfold src_frame_uint24Encode. cbn [set_nth le_enc app]. rewrite !wrap8_u8, N.shiftr_shiftr. reflexivity. Qed.
-
-Theorem src_uint48_encode x0 x1 x2 x3 x4 x5 rest v :
-  src_frame_uint48Encode (x0 :: x1 :: x2 :: x3 :: x4 :: x5 :: rest) v = (le_enc 6 v ++ rest)%list.
-Proof. unfold src_frame_uint48Encode. cbn [set_nth le_enc app]. rewrite !wrap8_u8, !N.shiftr_shiftr. reflexivity. Qed.
-
-Theorem src_is_signed f : src_frame_V2Frame_IsSigned (f_inc f) = is_signed f.
-Proof. reflexivity. Qed.
-
 
 (* ---------------- marshalTo of both frame versions ----------------
    The translations store into a buffer; the models return the bytes.  For every frame and payload,
@@ -60,36 +12,6 @@ Proof. reflexivity. Qed.
    the buffer, the rest of the buffer untouched, and returns their number; a v1 frame with an id above
    255 is refused without touching the buffer. *)
 Local Open Scope list_scope.
-
-Lemma put_le_spec : forall k l v, (k <= length l)%nat -> put_le l k v = (le_enc k v ++ skipn k l)%list.
-Proof.
-  induction k as [|k IH]; intros l v H; [destruct l; reflexivity|].
-  destruct l as [|x t]; [cbn in H; lia|]. cbn [put_le le_enc skipn app].
-  rewrite IH by (cbn in H; lia). rewrite N.shiftr_div_pow2. reflexivity.
-Qed.
-
-Lemma overwrite_fits : forall src dst, (length src <= length dst)%nat ->
-  overwrite dst src = (src ++ skipn (length src) dst)%list.
-Proof.
-  induction src as [|s r IH]; intros dst H; [destruct dst; reflexivity|].
-  destruct dst as [|d t]; [cbn in H; lia|]. cbn. f_equal. apply IH. cbn in H. lia.
-Qed.
-
-Lemma on_suffix_app a b g : on_suffix (a ++ b) (length a) g = (a ++ g b)%list.
-Proof. unfold on_suffix. rewrite firstn_app, firstn_all, Nat.sub_diag, skipn_app, skipn_all, Nat.sub_diag. cbn. rewrite app_nil_r. reflexivity. Qed.
-
-Lemma set_nth_app : forall a x t v, SrcPrelude.set_nth (a ++ x :: t) (length a) v = (a ++ v :: t)%list.
-Proof. induction a as [|y a IH]; intros; cbn; [reflexivity|]. f_equal. apply IH. Qed.
-
-Lemma copy_at_app a b src : (length src <= length b)%nat ->
-  copy_at (a ++ b) (length a) src = ((a ++ src ++ skipn (length src) b)%list, nlen src).
-Proof.
-  intros H. unfold copy_at. rewrite on_suffix_app, overwrite_fits by exact H. f_equal.
-  unfold nlen. f_equal. rewrite app_length. lia.
-Qed.
-
-Lemma skipn_add {A} : forall a b (l : list A), skipn a (skipn b l) = skipn (b + a) l.
-Proof. intros a b. induction b as [|b IH]; intros l; [reflexivity|]. destruct l; [destruct a; reflexivity|]. cbn. apply IH. Qed.
 
 Theorem src_v1_marshal : forall f p buf, f_v2 f = false -> (8 + length p <= length buf)%nat ->
   src_frame_V1Frame_marshalTo (f_seq f) (f_sys f) (f_comp f) (f_ck f) (msg_id (f_msg f)) buf p =
@@ -121,15 +43,6 @@ Proof.
   - unfold nlen. rewrite !app_length. cbn [length le_enc]. lia.
   - rewrite <- !app_assoc. cbn [app length skipn]. rewrite app_length. cbn [le_enc length].
     reflexivity.
-Qed.
-
-Lemma uint24_gen l v : (3 <= length l)%nat -> src_frame_uint24Encode l v = le_enc 3 v ++ skipn 3 l.
-Proof.
-  intros H. destruct l as [|x0 [|x1 [|x2 r]]]; cbn [length] in H; try lia. apply src_uint24_encode.
-Qed.
-Lemma uint48_gen l v : (6 <= length l)%nat -> src_frame_uint48Encode l v = le_enc 6 v ++ skipn 6 l.
-Proof.
-  intros H. destruct l as [|x0 [|x1 [|x2 [|x3 [|x4 [|x5 r]]]]]]; cbn [length] in H; try lia. apply src_uint48_encode.
 Qed.
 
 Theorem src_v2_marshal : forall f p buf s, f_v2 f = true -> (25 + length p <= length buf)%nat ->
@@ -213,15 +126,3 @@ Theorem src_frame_layout :
 Proof. repeat split; try reflexivity; vm_compute; discriminate. Qed.
 
 (* signature time: 10 microsecond ticks since 1st January 2015; the one-minute window of the reader *)
-Theorem src_frame_signing :
-  v_frame_signatureReferenceDate_args = [2015; 1; 1; 0; 0; 0; 0] /\
-  v_streamwriter_signatureReferenceDate_args = [2015; 1; 1; 0; 0; 0; 0] /\
-  k_frame_Writer_writeFrameAndFill = [0; 0; 1; 10000] /\ k_streamwriter_Writer_writeInner = [0; 0; 1; 10000] /\
-  k_frame_Reader_Read = [254; 253; 0; Z.of_N window].
-Proof. repeat split; reflexivity. Qed.
-
-(* a whole UDP datagram (at most 65507 bytes of payload over IPv4) fits into the buffer the frame
-   reader hands to the transport: no part of a datagram is cut off by the size of the read *)
-Theorem src_read_buffer :
-  65507 <= c_frame_readBufferSize /\ c_frame_readBufferSize = a_frame_Reader_Initialize_NewReaderSize.
-Proof. split; [vm_compute; discriminate|reflexivity]. Qed.
